@@ -51,7 +51,9 @@ def _offdist(g, stream):
     r = g.rng
     if r.random() < 0.08:
         return 0.0
-    return r.choice([-1, 1]) * (r.choice([0.125, 0.25, 0.5]) if stream == 'lattice'
+    # lattice distances are odd multiples of 1/32: twice such a distance is never a lattice
+    # width (multiples of 1/4), so an inward offset never collapses to exactly zero width
+    return r.choice([-1, 1]) * (r.choice([0.15625, 0.28125, 0.53125]) if stream == 'lattice'
                                 else r.uniform(0.02, 0.6))
 
 
@@ -63,10 +65,27 @@ def _offset_poly(g, stream):
     return vs
 
 
+def _no_collapse_tie(gen):
+    """Reject (polygon, distance) pairs whose narrowest bounding extent is within 2% of twice the
+    offset distance: there the inward offset collapses to zero width and whether the library
+    answers None is decided by rounding (a tie, not a disagreement)."""
+    def wrapped(g, stream):
+        for _ in range(30):
+            args = gen(g, stream)
+            vs, d = args[0], abs(args[-1])
+            w = min(max(p.x for p in vs) - min(p.x for p in vs),
+                    max(p.y for p in vs) - min(p.y for p in vs))
+            if abs(w - 2 * d) > 0.02 * max(w, 2 * d, 1e-9):
+                return args
+        return args
+    return wrapped
+
+
 GENERATORS['polygon2d_offset'] = lambda g, s: [_offset_poly(g, s), _offdist(g, s)]
-GENERATORS['polygon2d_offset_check'] = lambda g, s: [_offset_poly(g, s), _offdist(g, s)]
-GENERATORS['polygon2d_perimeter_core_by_offset'] = lambda g, s: [_offset_poly(g, s),
-                                                                 abs(_offdist(g, s))]
+GENERATORS['polygon2d_offset_check'] = _no_collapse_tie(
+    lambda g, s: [_offset_poly(g, s), _offdist(g, s)])
+GENERATORS['polygon2d_perimeter_core_by_offset'] = _no_collapse_tie(
+    lambda g, s: [_offset_poly(g, s), abs(_offdist(g, s))])
 GENERATORS['polyline2_offset'] = lambda g, s: [_offset_poly(g, s), g.rng.random() < 0.5,
                                                _offdist(g, s)]
 
